@@ -64,6 +64,23 @@ func (e *Exec) call(fr *Frame, st *State, ins ssa.Instruction, cc *ssa.CallCommo
 		}
 		return e.callByContract(fr, st, ins, sp, callee, args, rtyp)
 	}
+	if name == "(*sync.Cond).Wait" && e.pure == 0 {
+		// the lock is released while waiting: any other goroutine may have run
+		if e.frameOn && fr.spec != nil && fr.spec.HasModifies && len(fr.spec.ModPkgs) == 0 {
+			// interference is confined to the function's own frame: an assumption about the other lock holders
+			e.assumed["(*sync.Cond).Wait: while the lock is released other goroutines change only locations in this function's modifies clause (havocked)"] = true
+			for _, l := range e.frameLocs {
+				srt := e.heapSorts[l.arr]
+				cur := e.heapGet(st, l.arr, srt)
+				_, es := arrayParts(cur.sort)
+				e.heapSet(st, l.arr, e.c.Store(cur, l.ref, e.c.Fresh(l.arr+"@wait", es)))
+			}
+			return Val{}
+		}
+		e.note("(*sync.Cond).Wait: heap havocked (other goroutines run while the lock is released)")
+		e.havocAll(st)
+		return Val{}
+	}
 	if e.eng.isPureExternal(name) || e.eng.isNoop(name) {
 		if e.pure > 0 {
 			return e.ufCall(st, callee, args, rtyp)
